@@ -24,6 +24,9 @@ def tobool(x):
 class Violation(Exception):
     def __init__(s, kind, msg=''): Exception.__init__(s, '%s: %s' % (kind, msg)); s.kind = kind; s.msg = msg
 class Unsupported(Exception): pass
+class LoopCut(Exception):
+    """control returned to a cut loop header; carries the back-edge phi values"""
+    def __init__(s, vals): Exception.__init__(s, 'loop cut'); s.vals = vals
 class Terminated(Exception):
     def __init__(s, kind, msg=''): Exception.__init__(s, '%s %s' % (kind, msg)); s.kind = kind; s.msg = msg
 
@@ -404,7 +407,7 @@ class World:
 class Interp:
     def __init__(s, world, decisions=None, solver=None):
         s.w = world; s.calls = 0; s.pc = []; s.decisions = list(decisions or []); s.dpos = 0; s.worklist = []
-        s.solver = solver; s.asm = None; s.depth = 0; s.conc_cap = 64; s.trace = None
+        s.solver = solver; s.asm = None; s.depth = 0; s.conc_cap = 64; s.trace = None; s.loopcut = {}
         from . import x86asm
         s.asm = x86asm.X86()
     # ---- forking
@@ -607,6 +610,8 @@ class Interp:
                 for v, l in ins.inc:
                     if l == prev: newv[ins.res] = s.val(env, ins.ty, v); break
                 else: raise Unsupported('phi without incoming edge')
+            lc = s.loopcut.get((f.name, cur)) if s.loopcut else None
+            if lc is not None: newv = lc(s, prev, newv, env)       # loop-cut mode: havoc / record the header's phi values (may raise LoopCut)
             env.update(newv)
             nxt = None
             for ins in blk:
